@@ -4,9 +4,11 @@
 // rational arithmetic, executes one public operation at a time with valid arguments and compares the full observable state
 // (plus the project's own isConsistent() under ENABLE_CONSISTENCY_CHECKS) after every operation.
 //
-// Case k -> unit u = k mod NU, j = k div NU.  j < EC: chunk j of the bounded-exhaustive enumeration of all operation
-// sequences of length L over the unit's exhaustive alphabet (every EC-th sequence, starting at j); j >= EC: one long random
-// operation sequence seeded by (prop, seed, k).  Everything is a pure function of (prop, seed, k).
+// Case k -> unit u = k mod NU, block j = k div NU.  If j is a multiple of P and c = j/P < EC, the case is chunk c of the
+// bounded-exhaustive enumeration of all operation sequences of length L over the unit's exhaustive alphabet (every EC-th
+// sequence, starting at c); every other case is one long random operation sequence seeded by (prop, seed, k).  L, EC and the
+// period P (which spreads the expensive exhaustive cases evenly over the case range) come from the stage arguments, so
+// everything is a pure function of (prop, seed, k).
 #include "cont_common.hpp"
 #include <unistd.h>
 #include <sys/wait.h>
@@ -164,11 +166,14 @@ void probeHazards(Unit* reporter)
             kind = err.substr(p + 18, 40);
             kind = kind.substr(0, kind.find_first_of(" \n"));
          }
-         if(r == 1) kind = "wrong-result";
+         if(r == 1 && p == std::string::npos) kind = "wrong-result";
          if(r == 3) kind = "hang";
+         std::string savedName = reporter->name;
+         reporter->name = "ClassSet";
          reporter->fail("reMax(shrink)", "probe:" + kind,
                         "ClassSet<T>(8) with 2 elements, reMax(0): forked probe ended with " + kind + " (reMax copies max() old items into newmax slots); " +
                         err.substr(0, 600));
+         reporter->name = savedName;
          reporter->bad = false;
       }
    }
@@ -223,6 +228,7 @@ int main(int argc, char** argv)
    g_tmpdir = cli.tmpdir;
    int exlen = cli.extra.count("exlen") ? atoi(cli.extra["exlen"].c_str()) : (cli.thorough() ? 5 : 4);
    int EC = cli.extra.count("ec") ? atoi(cli.extra["ec"].c_str()) : 32;
+   int period = cli.extra.count("period") ? std::max(1, atoi(cli.extra["period"].c_str())) : 1;
    int rlo = cli.extra.count("rlo") ? atoi(cli.extra["rlo"].c_str()) : (cli.thorough() ? 300 : 150);
    int rhi = cli.extra.count("rhi") ? atoi(cli.extra["rhi"].c_str()) : (cli.thorough() ? 2000 : 700);
    std::string only = cli.extra.count("unit") ? cli.extra["unit"] : "";
@@ -235,7 +241,8 @@ int main(int argc, char** argv)
       int u = (int)(k % NU);
       long long j = k / NU;
       const UnitDesc& d = table[u];
-      bool exhaustive = j < EC;
+      bool exhaustive = (j % period == 0) && (j / period < EC);
+      if(exhaustive) j /= period;
       S.begin(k, std::string(d.name) + (exhaustive ? ":exhaustive:" + std::to_string(j) : std::string(":random")));
       if(!only.empty() && only != d.name)
       {
@@ -253,7 +260,7 @@ int main(int argc, char** argv)
          S.count("cases.exhaustive");
          std::vector<int> ops = U.exOps();
          int A = (int)ops.size();
-         int L = std::max(1, exlen + d.exlenDelta);
+         int L = std::max(1, exlen + d.exlenDelta - (exlen >= 6 && d.exlenDelta < 0 ? 1 : 0));
          long long total = 1;
          for(int i = 0; i < L; i++) total *= A;
          long long nseq = 0;
